@@ -73,6 +73,43 @@ func (e *CoreExtension) GetName() string {
 
 // GetFilters returns the core filters
 func (e *CoreExtension) GetFilters() map[string]FilterFunc {
+	filters := e.coreFilters()
+	for name, filter := range filters {
+		filters[name] = onCollection(filter)
+	}
+	return filters
+}
+
+// onCollection makes a core filter see the list, map or string behind a pointer: a
+// context value of type *[]T prints, indexes and iterates as the list it points to,
+// and the filters agree (length, first, last, slice, sort, join, ... failed on it)
+func onCollection(filter FilterFunc) FilterFunc {
+	return func(value interface{}, args ...interface{}) (interface{}, error) {
+		return filter(pointedCollection(value), args...)
+	}
+}
+
+// pointedCollection follows a non-nil pointer to a slice, array, map or string (through
+// at most a few levels of pointers); every other value is returned as it is
+func pointedCollection(value interface{}) interface{} {
+	rv := reflect.ValueOf(value)
+	for depth := 0; depth < 4 && rv.Kind() == reflect.Ptr && !rv.IsNil(); depth++ {
+		switch elem := rv.Elem(); elem.Kind() {
+		case reflect.Slice, reflect.Array, reflect.Map, reflect.String:
+			if elem.CanInterface() {
+				return elem.Interface()
+			}
+			return value
+		case reflect.Ptr:
+			rv = elem
+		default:
+			return value
+		}
+	}
+	return value
+}
+
+func (e *CoreExtension) coreFilters() map[string]FilterFunc {
 	return map[string]FilterFunc{
 		"default":       e.filterDefault,
 		"escape":        e.filterEscape,
